@@ -4,10 +4,10 @@
    it, are returned one by one with exactly their types and texts. *)
 From Verif Require Import Common.Base Common.Tactics Common.Lx Gen.Tables
   JsLex.Model JsLex.Lemmas JsLex.Total JsLex.Next JsLex.Canon JsLex.Comment JsLex.Relex JsLex.Proofs
-  JsLex.RelexNext JsLex.Exchange JsLex.Exchange2.
+  JsLex.RelexNext JsLex.Exchange JsLex.Exchange2 JsLex.NumExchange.
 From Coq Require Import ZifyBool.
 
-Inductive tclass := KPunct | KIdent | KWs | KLt | KString | KComment | KTemplate.
+Inductive tclass := KPunct | KIdent | KWs | KLt | KString | KComment | KTemplate | KNum.
 
 Definition class_of (ty : Z) : option tclass :=
   if ty =? WhitespaceToken then Some KWs
@@ -15,20 +15,34 @@ Definition class_of (ty : Z) : option tclass :=
   else if ty =? StringToken then Some KString
   else if (ty =? CommentToken) || (ty =? CommentLineTerminatorToken) then Some KComment
   else if ty =? TemplateToken then Some KTemplate
+  else if (256 <? ty) && (ty <? 512) then Some KNum
   else if ty =? PrivateIdentifierToken then Some KIdent
   else if 2048 <? ty then Some KIdent
   else if 512 <? ty then Some KPunct
   else None.
 
-(* the byte that follows a token must not be able to extend it *)
-Definition stop_for (cls : tclass) (c : Z) : Prop :=
+(* ( ) [ ] { } ; , : never combine with what follows *)
+Definition punct1 (t : Z) : bool :=
+  (t =? 44) || (t =? 59) || (t =? 40) || (t =? 41) || (t =? 123) || (t =? 125) || (t =? 58) || (t =? 93) || (t =? 91).
+
+(* the byte that follows the token T must not be able to extend it *)
+Definition stop_for (cls : tclass) (T : list Z) (c : Z) : Prop :=
   match cls with
-  | KPunct => op_stop c
+  | KPunct => match T with [t] => if punct1 t then True else op_stop c | _ => op_stop c end
   | KIdent => tab_cont c = false /\ c < 192 /\ c <> 92
   | KWs => c <> 32 /\ c <> 9 /\ c <> 11 /\ c <> 12 /\ c < 192
   | KLt => c <> 10 /\ c <> 13 /\ c <> 226
   | KString | KComment | KTemplate => True      (* closed tokens: any follower *)
+  | KNum => tab_cont c = false /\ c <> 46        (* no identifier character (digit, letter, '_', '$'), no '.' *)
   end.
+
+Lemma stop_punct_op T R a c : pkl (T ++ R) 0 = Ok a -> punct1 a = false -> stop_for KPunct T c -> op_stop c.
+Proof.
+  intros Ha Hp H. cbn [stop_for] in H. destruct T as [|t [|t' T']]; try exact H.
+  cbn [app] in Ha. rewrite pkl_cons_0 in Ha. assert (t = a) by congruence. subst t. rewrite Hp in H. exact H.
+Qed.
+
+Definition is_num (cls : tclass) : bool := match cls with KNum => true | _ => false end.
 
 (* restriction on the text within a class: only multi-line comments among the comment forms *)
 Definition text_ok (cls : tclass) (T : list Z) : Prop :=
@@ -53,8 +67,8 @@ Qed.
 
 (* the states between the tokens of a sequence: nothing pending, no open template, the previous token
    was not a numeric literal *)
-Definition seq_inv (s : jst) : Prop :=
-  js_wf s /\ lstart (jcur s) = lpos (jcur s) /\ jtl s = [] /\ jpnl s = false.
+Definition seq_inv (pn : bool) (s : jst) : Prop :=
+  js_wf s /\ lstart (jcur s) = lpos (jcur s) /\ jtl s = [] /\ jpnl s = pn.
 
 Ltac open_ext E R' Hsuf :=
   unfold next; cbv zeta; cbn [jcur jerr jplt jpnl jlevel jtl]; rewrite Hsuf; xfer2 E R'; use_conds.
@@ -66,7 +80,7 @@ Ltac fin_ext z T R' Hw Hst Hsuf HR' :=
       let He := fresh "He" in let Hw' := fresh "Hw'" in let Hs' := fresh "Hs'" in
       destruct (emit_at s1 z T R' ty Hw Hst Hsuf HR') as (He & Hw' & Hs'); rewrite He;
       eexists; split; [reflexivity|]; split; [|exact Hs'];
-      unfold seq_inv, js_wf; cbn [jcur jtl jpnl set_cur set_plt set_level set_err];
+      unfold seq_inv, js_wf; cbn [jcur jtl jpnl set_cur set_plt set_level set_err set_pnl is_num];
       split; [exact Hw'|]; split; [reflexivity|]; split; reflexivity
   end.
 
@@ -113,12 +127,12 @@ Proof.
   exfalso. assert (n = 0) by congruence. lia.
 Qed.
 
-Lemma next_extend s ty T R' cls :
+Lemma next_extend s pn ty T R' cls :
   relexes id_start id_cont is_zs ty T -> class_of ty = Some cls -> text_ok cls T -> no_trunc T = true ->
-  seq_inv s -> suffix (jcur s) = T ++ R' -> R' <> [] -> stop_for cls (hd 0 R') ->
-  exists s', next id_start id_cont is_zs s = Ok ((ty, Some T), s') /\ seq_inv s' /\ suffix (jcur s') = R'.
+  seq_inv pn s -> (pn = true -> cls <> KIdent) -> suffix (jcur s) = T ++ R' -> R' <> [] -> stop_for cls T (hd 0 R') ->
+  exists s', next id_start id_cont is_zs s = Ok ((ty, Some T), s') /\ seq_inv (is_num cls) s' /\ suffix (jcur s') = R'.
 Proof.
-  intros (s2 & Hn & Hp & _) Hcls Htxt Hnt (Hw & Hst & Htl & Hpnl) Hsuf HR' Hstop.
+  intros (s2 & Hn & Hp & _) Hcls Htxt Hnt (Hw & Hst & Htl & Hpnl) Hpn Hsuf HR' Hstop.
   destruct s as [z e0 plt0 pnl0 lev tl]. unfold js_wf in Hw. cbn [jcur jtl jpnl] in *. subst tl pnl0.
   assert (HT : 0 < len T).
   { destruct T; [|rewrite len_cons; pose proof (len_nonneg T); lia]. exfalso. vm_compute in Hn. discriminate. }
@@ -129,13 +143,23 @@ Proof.
   (apply emit_inv in Hn; destruct Hn as (Hty0 & _ & Hs'); subst s2;
    cbn [jcur set_cur skip mv lpos lx_init] in Hp);
   try (subst ty; discriminate);
-  (* numeric literals are not covered *)
+  (* numeric literals *)
   try (match goal with
-       | E0 : numeric _ = Ok (_, ?t, _) |- _ => apply numeric_ty in E0
-       end;
-       exfalso; subst ty; unfold class_of, WhitespaceToken, LineTerminatorToken, PrivateIdentifierToken,
-         ErrorToken, CommentToken, CommentLineTerminatorToken, StringToken, TemplateToken in *;
-       repeat match type of Hcls with context [if ?b then _ else _] => destruct b eqn:? end; try discriminate; lia);
+       | E0 : numeric (T ++ [0]) = Ok (?n, ?t, ?e), Hty0 : ty = ?t |- _ =>
+           assert (n = len T) by lia; subst n ty;
+           pose proof (numeric_ty _ _ _ _ E0) as Hnty;
+           assert (Hne : t <> ErrorToken) by (intros ->; discriminate);
+           assert (cls = KNum)
+             by (unfold class_of, WhitespaceToken, LineTerminatorToken, PrivateIdentifierToken, ErrorToken,
+                   CommentToken, CommentLineTerminatorToken, StringToken, TemplateToken in *;
+                 repeat match type of Hcls with context [if ?b then _ else _] => destruct b eqn:? end; try lia; congruence);
+           subst cls; destruct Hstop as (S1 & S2);
+           destruct (hd_cons_nonempty R' HR') as (c & R'' & HRc & Hc); rewrite Hc in *; subst R';
+           pose proof (numeric_exchange c R'' S1 S2 T [0] _ _ _ Hnt H0R HT E0 eq_refl Hne) as E0';
+           open_ext E (c :: R'') Hsuf; rewrite E0'; cbn [rbind];
+           replace (negb (t =? ErrorToken)) with true by (unfold ErrorToken in *; lia); cbn [orb]; cbv iota;
+           fin_ext z T (c :: R'') Hw Hst Hsuf HR'
+       end);
   (* HTML-like comments are not covered: the text of a covered comment starts with "/*" *)
   try (match goal with
        | E0 : html_comment _ _ = Ok _ , Hty0 : ty = CommentToken |- _ =>
@@ -165,13 +189,16 @@ Proof.
                  assert (t0 = a) by congruence; lia);
            assert (Hne : t <> ErrorToken)
              by (intros ->; discriminate);
+           assert (cls = KString)
+             by (destruct (string_tok_ty _ _ _ _ E0) as [->| ->]; [congruence|injection Hcls as <-; reflexivity]);
+           subst cls;
            pose proof (string_tok_exchange T [0] R' _ _ _ H0R HR' E0 eq_refl Hne Hq) as E0';
            open_ext E R' Hsuf; rewrite E0'; cbn [rbind]; fin_ext z T R' Hw Hst Hsuf HR'
        end);
   (* templates without substitution *)
   try (match goal with
        | E0 : tpl_loop _ (skipz 1 (T ++ [0])) = Ok (?n, ?o), Hty0 : ty = TemplateToken |- _ =>
-           assert (1 + n = len T) by lia; subst ty;
+           assert (1 + n = len T) by lia; subst ty; injection Hcls as <-;
            rewrite skipz_app_le in E0 by lia;
            pose proof (tpl_loop_exchange R' HR' _ _ _ _ _ H0R E0 ltac:(rewrite len_skipz by lia; lia) ltac:(lia)
                          (length (T ++ R')) ltac:(pose proof (length_skipz_le 1 T); rewrite app_length;
@@ -210,12 +237,12 @@ Proof.
     assert (cls = KPunct).
     { unfold class_of, WhitespaceToken, LineTerminatorToken, PrivateIdentifierToken, StringToken, CommentToken, CommentLineTerminatorToken, TemplateToken in Hcls.
       repeat match type of Hcls with context [if ?b then _ else _] => destruct b eqn:? end; try lia; congruence. }
-    subst cls. cbn [stop_for] in Hstop.
+    subst cls. apply (stop_punct_op T [0] a _ E ltac:(unfold punct1, is_op_start in *; lia)) in Hstop.
     destruct (hd_cons_nonempty R' HR') as (c & R'' & HRc & Hc). rewrite Hc in *. subst R'.
     pose proof (op_exchange T [0] c R'' z1 H0R E0 Hstop) as E0'.
     open_ext E (c :: R'') Hsuf. unfold op_or_err. rewrite Hsuf, E0'. cbn [rbind]. use_conds. fin_ext z T (c :: R'') Hw Hst Hsuf HR'.
   - (* "..." *)
-    subst ty. injection Hcls as <-. cbn [stop_for] in Hstop.
+    subst ty. injection Hcls as <-. apply (stop_punct_op T [0] a _ E ltac:(unfold punct1; lia)) in Hstop.
     assert (z1 = 0) by (unfold mark, mv, lx_init in Eb3; cbn [lpos lstart] in Eb3; lia). subst z1.
     rewrite mv_0 in E1, E2. rewrite suffix_mv in E1, E2 by (cbn; lia). rewrite suffix_init in E1, E2.
     rewrite !pkl_skipz in E1, E2 by lia. change (1 + 0) with 1 in E1. change (1 + 1) with 2 in E2.
@@ -241,7 +268,7 @@ Proof.
     rewrite pkl_cons_0, pkl_1. cbn [rbind]. change (46 =? 46) with true. cbv iota. cbn [rbind].
     rewrite mv_mv. change (1 + 2) with (len [46; 46; 46]). fin_ext z [46; 46; 46] (c :: R'') Hw Hst Hsuf HR'.
   - (* "." *)
-    subst ty. injection Hcls as <-. cbn [stop_for] in Hstop.
+    subst ty. injection Hcls as <-. apply (stop_punct_op T [0] a _ E ltac:(unfold punct1; lia)) in Hstop.
     assert (z1 = 0) by (unfold mark, mv, lx_init in Eb3; cbn [lpos lstart] in Eb3; lia). subst z1.
     assert (a = 46) by lia. subst a.
     pose proof (single_byte T [0] 46 ltac:(lia) E). subst T.
@@ -285,7 +312,7 @@ Proof.
     assert (cls = KPunct).
     { unfold class_of, WhitespaceToken, LineTerminatorToken, PrivateIdentifierToken, StringToken, CommentToken, CommentLineTerminatorToken, TemplateToken in Hcls.
       repeat match type of Hcls with context [if ?b then _ else _] => destruct b eqn:? end; try lia; congruence. }
-    subst cls. cbn [stop_for] in Hstop.
+    subst cls. apply (stop_punct_op T [0] a _ E ltac:(unfold punct1, is_op_start in *; lia)) in Hstop.
     destruct (hd_cons_nonempty R' HR') as (c & R'' & HRc & Hc). rewrite Hc in *. subst R'.
     pose proof (op_exchange T [0] c R'' z4 H0R E1 Hstop) as E1'.
     (* the comment scanner declines in front of c as well *)
@@ -322,7 +349,7 @@ Proof.
     assert (cls = KPunct).
     { unfold class_of, WhitespaceToken, LineTerminatorToken, PrivateIdentifierToken, StringToken, CommentToken, CommentLineTerminatorToken, TemplateToken in Hcls.
       repeat match type of Hcls with context [if ?b then _ else _] => destruct b eqn:? end; try lia; congruence. }
-    subst cls. cbn [stop_for] in Hstop.
+    subst cls. apply (stop_punct_op T [0] a _ E ltac:(unfold punct1, is_op_start in *; lia)) in Hstop.
     destruct (hd_cons_nonempty R' HR') as (c & R'' & HRc & Hc). rewrite Hc in *. subst R'.
     pose proof (op_exchange T [0] c R'' z1 H0R E1 Hstop) as E1'.
     pose proof (html_decline2 plt0 T c R'' z1 E1 Hstop) as E0'.
@@ -354,6 +381,7 @@ Proof.
     { rewrite HRc. unfold ident_cont1, uesc. rewrite pkl_cons_0. cbn [rbind]. rewrite S1.
       replace (192 <=? c) with false by lia. replace (negb (c =? 92)) with true by lia. reflexivity. }
     pose proof (ident_exchange id_start id_cont R' HR' _ _ Hnt H0R E0 HT Hstop0) as E0'.
+    assert (pn = false) by (destruct pn; [exfalso; apply Hpn; reflexivity|reflexivity]). subst pn.
     open_ext E R' Hsuf. rewrite E0'. cbn [rbind]. use_conds.
     assert (Hlex : lexeme (mv z (len T)) = Some T).
     { destruct (emit_at (mkJst z 0 false false 0 []) z T R' 0 Hw Hst Hsuf HR') as (He & _ & _).
@@ -368,6 +396,7 @@ Proof.
     { rewrite HRc. unfold ident_cont1, uesc. rewrite pkl_cons_0. cbn [rbind]. rewrite S1.
       replace (192 <=? c) with false by lia. replace (negb (c =? 92)) with true by lia. reflexivity. }
     pose proof (ident_exchange id_start id_cont R' HR' _ _ Hnt H0R E0 HT Hstop0) as E0'.
+    assert (pn = false) by (destruct pn; [exfalso; apply Hpn; reflexivity|reflexivity]). subst pn.
     open_ext E R' Hsuf. rewrite E0'. cbn [rbind]. use_conds.
     assert (Hlex : lexeme (mv z (len T)) = Some T).
     { destruct (emit_at (mkJst z 0 false false 0 []) z T R' 0 Hw Hst Hsuf HR') as (He & _ & _).
@@ -430,36 +459,39 @@ Definition texts (ts : list tokspec) : list Z := concat (map snd ts).
 (* the byte that follows a token: the first byte of the rest of the sequence, or the terminator *)
 Definition follower (rest : list tokspec) : Z := hd 0 (texts rest ++ [0]).
 
-Inductive seq_ok : list tokspec -> Prop :=
-| sq_nil : seq_ok []
-| sq_cons ty T rest cls :
+(* seq_ok pn ts: pn says that the token before ts is a numeric literal (then ts must not start with an
+   identifier: "1a" is a lexical error) *)
+Inductive seq_ok : bool -> list tokspec -> Prop :=
+| sq_nil pn : seq_ok pn []
+| sq_cons pn ty T rest cls :
     relexes id_start id_cont is_zs ty T -> class_of ty = Some cls -> text_ok cls T -> no_trunc T = true ->
-    stop_for cls (follower rest) -> seq_ok rest -> seq_ok ((ty, T) :: rest).
+    (pn = true -> cls <> KIdent) ->
+    stop_for cls T (follower rest) -> seq_ok (is_num cls) rest -> seq_ok pn ((ty, T) :: rest).
 
-Lemma seq_run ts : seq_ok ts -> forall s, seq_inv s -> suffix (jcur s) = texts ts ++ [0] ->
-  exists s', next_n id_start id_cont is_zs (length ts) s = Ok (map (fun t => (fst t, Some (snd t))) ts, s') /\
-    seq_inv s' /\ suffix (jcur s') = [0].
+Lemma seq_run pn ts : seq_ok pn ts -> forall s, seq_inv pn s -> suffix (jcur s) = texts ts ++ [0] ->
+  exists s' pn', next_n id_start id_cont is_zs (length ts) s = Ok (map (fun t => (fst t, Some (snd t))) ts, s') /\
+    seq_inv pn' s' /\ suffix (jcur s') = [0].
 Proof.
-  induction 1 as [|ty T rest cls Hre Hcls Htxt Hnt Hstop Hrest IH]; intros s Hinv Hsuf.
-  - exists s. cbn [length next_n map]. auto.
+  induction 1 as [pn|pn ty T rest cls Hre Hcls Htxt Hnt Hpn Hstop Hrest IH]; intros s Hinv Hsuf.
+  - exists s, pn. cbn [length next_n map]. auto.
   - cbn [length next_n map fst snd].
     assert (Hsuf' : suffix (jcur s) = T ++ (texts rest ++ [0])).
     { rewrite Hsuf. unfold texts. cbn [map concat snd]. rewrite <- app_assoc. reflexivity. }
     assert (HR' : texts rest ++ [0] <> []) by (destruct (texts rest); discriminate).
-    destruct (next_extend s ty T (texts rest ++ [0]) cls Hre Hcls Htxt Hnt Hinv Hsuf' HR' Hstop) as (s1 & Hn & Hinv1 & Hsuf1).
+    destruct (next_extend s pn ty T (texts rest ++ [0]) cls Hre Hcls Htxt Hnt Hinv Hpn Hsuf' HR' Hstop) as (s1 & Hn & Hinv1 & Hsuf1).
     rewrite Hn. cbn [rbind].
-    destruct (IH s1 Hinv1 Hsuf1) as (s2 & Hn2 & Hinv2 & Hsuf2). rewrite Hn2. cbn [rbind].
-    exists s2. auto.
+    destruct (IH s1 Hinv1 Hsuf1) as (s2 & pn2 & Hn2 & Hinv2 & Hsuf2). rewrite Hn2. cbn [rbind].
+    exists s2, pn2. auto.
 Qed.
 
 (* C06, classes proved so far: the lexer returns exactly the token sequence *)
-Lemma jslex_token_sequences_partial_proof ts : seq_ok ts ->
+Lemma jslex_token_sequences_partial_proof ts : seq_ok false ts ->
   exists s', next_n id_start id_cont is_zs (length ts) (js_init (texts ts)) =
                Ok (map (fun t => (fst t, Some (snd t))) ts, s') /\
     at_end (jcur s') = true /\ lstart (jcur s') = lpos (jcur s').
 Proof.
   intros H.
-  destruct (seq_run ts H (js_init (texts ts))) as (s' & Hn & (Hw & Hst & _) & Hsuf).
+  destruct (seq_run false ts H (js_init (texts ts))) as (s' & pn' & Hn & (Hw & Hst & _) & Hsuf).
   - unfold seq_inv. split; [apply js_init_wf|]. cbn. auto.
   - reflexivity.
   - exists s'. split; [assumption|]. split; [|assumption].
@@ -468,13 +500,16 @@ Qed.
 
 End SeqNext.
 
-(* non-vacuity: a 'x'/*c*/`t`>>>= LF if( with no class for non-ASCII runes *)
-Example ex_seq_ok : seq_ok nocls nocls nocls
+(* non-vacuity: a 'x'/*c*/`t`>>>= LF if(0x1F_fn;1.5e+3 with no class for non-ASCII runes *)
+Example ex_seq_ok : seq_ok nocls nocls nocls false
   [(IdentifierToken, [97]); (WhitespaceToken, [32]); (StringToken, [39; 120; 39]);
    (CommentToken, [47; 42; 99; 42; 47]); (TemplateToken, [96; 116; 96]);
-   (GtGtGtEqToken, [62; 62; 62; 61]); (LineTerminatorToken, [10]); (2068, [105; 102]); (OpenParenToken, [40])].
+   (GtGtGtEqToken, [62; 62; 62; 61]); (LineTerminatorToken, [10]); (2068, [105; 102]); (OpenParenToken, [40]);
+   (HexadecimalToken, [48; 120; 49; 70; 95; 102; 110]); (SemicolonToken, [59]);
+   (DecimalToken, [49; 46; 53; 101; 43; 51])].
 Proof.
   repeat (eapply sq_cons; [unfold relexes; vm_compute; eexists; split; [reflexivity|split; reflexivity]
-                          | reflexivity | | reflexivity | | ]); try apply sq_nil;
-    cbn [text_ok stop_for follower texts map concat snd app hd]; unfold op_stop; repeat split; try lia; try reflexivity.
+                          | reflexivity | | reflexivity | | | ]); try apply sq_nil;
+    cbn [text_ok stop_for follower texts map concat snd app hd is_num]; unfold op_stop;
+    repeat split; try lia; try reflexivity; try discriminate; try (intros; discriminate).
 Qed.
